@@ -581,7 +581,12 @@ impl<R: Round> Context<R> {
             // compared with the size of the exponent leaves no correct digit in the remainder
             // (ln(B) < bit length of B)
             let int_digits = digit_len::<NewB>(&(IBig::from(repr.exponent) * B.bit_len()));
-            let work_context = Context::<R>::new(2 * self.precision + int_digits);
+            // guard digits for the constant factors of the error: every logarithm, the product, the remainder
+            // and the exponential function contribute a few units in the last place, times the bit length of the
+            // bases (NewB^guard_digits > 2^20). Without them a target precision of a handful of digits
+            // (2p digits are not many more than p then) loses its last digit in several percent of the cases
+            let guard_digits = digit_len::<NewB>(&IBig::from(1048576));
+            let work_context = Context::<R>::new(2 * self.precision + int_digits + guard_digits);
             let new_exp = repr.exponent
                 * work_context
                     .ln(&Repr::new(Repr::<B>::BASE.into(), 0))
